@@ -37,10 +37,14 @@ EXACTLYS_OWN_STDIN = 'text waiting on the stdin of the Exactly process\n'
 
 
 def _fd_of(handle):
-    """What the real _get_handles does: ints are fds, everything else must have fileno()."""
+    """What the real _get_handles does: ints are fds, everything else must have fileno().
+    (The in-memory stand-ins for the standard streams of the simulated Exactly process - host._Tap - have no descriptor:
+    they are written to as text.)"""
     if handle is None:
         return None
     if isinstance(handle, int):
+        return handle
+    if getattr(handle, 'is_sim_std_stream', False):
         return handle
     return handle.fileno()
 
@@ -220,8 +224,16 @@ class SimPopen:
             self._pipes[which] = self._pipes.get(which, b'') + data
             return
         if fd is None:
+            # no handle given: the child inherits the standard stream of the Exactly process - what it writes appears
+            # there, in the middle of whatever Exactly itself reports on that stream
             self._sim.counts['inherited_' + which] += 1
             self._sim.ev('inherit_output', which=which, data=data.decode('utf-8', 'replace'))
+            fd = self._sim.std_streams.get(which)
+            if fd is None:
+                return
+            fd = _fd_of(fd)
+        if getattr(fd, 'is_sim_std_stream', False):
+            fd.write(data.decode('utf-8', 'replace'))
             return
         os.write(fd, data)
 
